@@ -1,28 +1,29 @@
 import Driver.Common
 import Log4rsModel.EnvExpand.Spec
-import Log4rsModel.Roller.Model
 /-
-C19 driver. Case lines (after the id):
-  hook    <env> <path>                          observation  ok:<expanded> | PANIC
-  file    <env> <path>                          observation  created:<sorted list of files> | err | PANIC
-  rolling <env> <path>                          (same)
-  roller  <env> <pattern> <base> <count> <rolls>  observation  files:<path>=<k>,… | err | PANIC
-  file-cfg / rolling-cfg <env> <path>           the same appenders created from a configuration FILE
-                                                (`load_config_file`, `Logger::new`, one record)
-  roller-cfg <env> <pattern> <base> <count> <rolls>   rolling appender + fixed-window roller from a
-                                                configuration file, one roll per record
-  rolling / rolling-cfg <env> <path> <fw|del> <appends>   a HISTORY through the real appender: size
-                                                trigger (limit 2 bytes, one byte per record), fixed-window
-                                                roller `r.{}.log` count 2 or delete roller; observation
-                                                hist:<step>|<step>|…, one step after build and after every
-                                                append: <file>=<content>,…;open=<file the appender holds open|->
-                                                (the 3-field form means `fw 8`)
+C19 driver. Case lines (after the id; a trailing field `@bg` routes the case to the harness build
+with `background_rotation` and is otherwise ignored):
+  hook    <env> <path>                      ok:<expanded> | PANIC
+  file | file-cfg | file-json | file-toml   <env> <path>
+                                            a file appender (builder API / YAML, JSON, TOML configuration),
+                                            two records `0`, `1`;  tree:<entries> | err | PANIC
+  file-os <env> <path bytes, hex>           builder API with an `OsStr` path that need not be UTF-8
+  rolling | rolling-cfg <env> <path> [<fw|del> <appends> [<roller pattern|-> <size|time>]]
+                                            a HISTORY through the real appender: size trigger (limit 2 bytes,
+                                            one byte per record) or time trigger (pre-process branch: every
+                                            append but the first finds the interval elapsed), fixed-window
+                                            roller (count 2, given pattern, default `r.{}.log`) or delete
+                                            roller;  hist:<step>|<step>|… (after build and after every
+                                            append), step = <entries>;open=<file held open|->
+  roller | roller-cfg <env> <pattern> <base> <count> <rolls>
+                                            `cur.log` written and rolled <rolls> times;  tree:<entries> | err
+<entries> = `,`-joined, sorted: `d:<dir>` and `f:<file>=<content>` (content: digits as text, `_` empty).
 <env> = `~` or `,`-joined entries `<name>;<value>` (strings hex-encoded as everywhere) or
 `b:<name bytes>;<value bytes>` (contiguous hex, `_` empty): a variable whose name or value need not
-be valid UTF-8 (the process environment as the OS holds it).
-Paths of the call-site kinds are relative to a fresh scratch directory the harness `cd`s into.
-The model of every call site is `location` (EnvExpand/Model.lean); the specification is ONE
-application of the single pass to the text the call site was given (`specLocation`).
+be valid UTF-8. A value or path starting with `/SCRATCH` stands for the absolute scratch directory.
+Paths are relative to a fresh scratch directory the harness `cd`s into.
+Model = EnvExpand/CallSites.lean (`fileBuildFs`, `rollingHistoryFs`, `rollFs`); specification =
+EnvExpand/Spec.lean at `loc = specExpand given` (`specFileBuild`, `specRollingHistory`, `specRoll`).
 -/
 namespace Driver.C19
 open Log4rs.Proto Log4rs.EnvExpand Log4rs Driver
@@ -32,7 +33,7 @@ harness asserts at start-up that Rust classifies every one of them as listed her
 def sampleTable : List (Nat × Bool) :=
   [ (0xE9, true), (0xDF, true), (0x416, true), (0x4E2D, true), (0x1D4B3, true),
     (0x663, true), (0xB2, true), (0xBD, true),
-    (0x20AC, false), (0x2014, false), (0xA0, false), (0x1F600, false), (0x301, false) ]
+    (0x20AC, false), (0x2014, false), (0xA0, false), (0x1F600, false), (0x301, false), (0xFFFD, false) ]
 
 def alnum (c : Char) : Bool :=
   if c.toNat < 128 then asciiAlnum c
@@ -84,16 +85,6 @@ def decEnv (s : String) : Option (OsEnv × Env) :=
   match decOsEnv s with
   | some os => if uniqueNames os then some (os, unicodeView os) else none
   | none => none
-
-def siteOf (kind : String) (slot : Nat) : Option CallSite :=
-  match kind with
-  | "file" => some .fileBuilder
-  | "file-cfg" => some .fileConfig
-  | "rolling" => some .rollingBuilder
-  | "rolling-cfg" => some .rollingConfig
-  | "roller" => some (.rollerBuilder slot)
-  | "roller-cfg" => some (.rollerConfig slot)
-  | _ => none
 
 /-- a second application of the expansion would change the result -/
 def reexpands (env : Env) (p : Text) : Bool :=
@@ -150,162 +141,247 @@ def failSig (implObs : String) (foreignEnv callSite nonIdem constructs : Bool) :
   else if constructs then "C19/substitution-constructs-reference"
   else "C19/expansion-differs-from-single-pass"
 
-/-- file-system friendly relative path: non-empty components, none of them `.` or `..`, no NUL -/
-def nicePath (p : Text) : Bool :=
-  let comps := Log4rs.Str.splitOn ['/'] p
-  !p.isEmpty && comps.all (fun c => !c.isEmpty && c ≠ ['.'] && c ≠ ['.', '.'] && c.all (· ≠ Char.ofNat 0)
-    && utf8Len c ≤ 200)
+/-! ### the file system of the call-site kinds -/
 
-def renderDisk (d : Roller.Disk) : String :=
-  let entries := d.files.map (fun e => encStr e.1 ++ "=" ++ ",".intercalate (e.2.map toString))
-  "files:" ++ encList "," (entries.toArray.qsort (· < ·)).toList
+/-- the scratch directory: absolute paths below `/SCRATCH` are inside the working directory -/
+def cwd : Comps := ["SCRATCH".toList]
+
+def joinPath (c : Comps) : Text := (c.map (fun x => x ++ ['/'])).flatten.dropLast
+
+def contentText (b : Bytes) : String :=
+  if b.isEmpty then "_"
+  else if b.all (fun x => 48 ≤ x && x ≤ 57) then String.ofList (b.map Char.ofNat)
+  else "x" ++ encBytes b
+
+def entries (fs : Fs) : String :=
+  let ds := fs.dirs.map (fun d => "d:" ++ encStr (joinPath d))
+  let fl := fs.files.map (fun e => "f:" ++ encStr (joinPath e.1) ++ "=" ++ contentText e.2)
+  encList "," ((ds ++ fl).toArray.qsort (· < ·)).toList
+
+def renderTree : Outcome FsErr Fs → String
+  | .ok fs => "tree:" ++ entries fs
+  | .err _ => "err"
+  | .panic _ => "PANIC"
+
+/-- an expansion that leaves the scratch directory, or a component the file system would refuse -/
+def unsafePath (p : Text) : Bool :=
+  let r := rpath p
+  (r.abs && !cwd.isPrefixOf r.comps) || hasSub "/SCRATCH".toList (p.drop 1) || r.comps.any (fun c => utf8Len c > 200 || c.contains (Char.ofNat 0)) ||
+    -- `..` must never climb above the scratch directory
+    ((if r.abs then r.comps.drop 1 else r.comps).foldl
+      (fun (acc : Option Nat) c => match acc with
+        | none => none
+        | some d => if c = dotdot then (if d = 0 then none else some (d - 1)) else some (d + 1)) (some 0)).isNone
+
+def digit (k : Nat) : Bytes := [48 + k % 10]
+
+/-! ### file appender kinds -/
+
+/-- build, two records, the tree -/
+def fileModel (env : Env) (given : Bytes) : Outcome FsErr Fs :=
+  bindO (fileBuildFs alnum env cwd given Fs.empty) fun (a, fs) =>
+    .ok (fileAppendFs a (digit 1) (fileAppendFs a (digit 0) fs))
+
+def fileSpec (loc : Text) : Outcome FsErr Fs :=
+  bindO (specFileBuild cwd loc Fs.empty) fun (fd, fs) =>
+    .ok ((fs.appendTo fd (digit 0)).appendTo fd (digit 1))
+
+/-! ### rolling appender kinds -/
+
+structure RollingCfg where
+  fw : Bool
+  appends : Nat
+  pattern : Text
+  time : Bool
+
+def ops (c : RollingCfg) : List AppendOp :=
+  (List.range c.appends).map (fun k =>
+    { data := digit k, rollIf := if c.time then (fun _ => decide (k ≥ 1)) else (fun len => decide (len > 2)) })
+
+def renderStep (fs : Fs) (w : Option (Comps × Nat)) : String :=
+  entries fs ++ ";open=" ++ (match w with
+    | some (fd, _) => encStr (joinPath fd)
+    | none => "-")
+
+/-- the history, one rendered step after build and after every append; `none` = an append fails
+in the model (never generated) -/
+def histSteps (step : Option (Comps × Nat) → AppendOp → Fs → Outcome FsErr (Option (Comps × Nat) × Fs)) :
+    List AppendOp → Option (Comps × Nat) → Fs → List String → Option (List String)
+  | [], _, _, acc => some acc
+  | op :: rest, w, fs, acc =>
+    match step w op fs with
+    | .ok (w', fs') => histSteps step rest w' fs' (acc ++ [renderStep fs' w'])
+    | _ => none
+
+def rollingModel (env : Env) (given : Text) (c : RollingCfg) : Option String :=
+  match (if c.fw then rollerBuild c.pattern 0 2 else .ok c.pattern) with
+  | .ok stored =>
+    let roller : RollerFn := if c.fw then rollFs alnum env cwd stored 0 2 else deleteRollFs cwd
+    match rollingBuildFs alnum env cwd (utf8 given) Fs.empty with
+    | .ok (st, fs) =>
+      (histSteps (fun w op fs => match rollingAppendFs cwd c.time roller { path := st.path, writer := w } op fs with
+          | .ok (st', fs') => .ok (st'.writer, fs')
+          | .err e => .err e
+          | .panic x => .panic x) (ops c) st.writer fs [renderStep fs st.writer]).map
+        (fun steps => "hist:" ++ "|".intercalate steps)
+    | .err _ => some "err"
+    | .panic _ => some "PANIC"
+  | .err _ => some "err"
+  | .panic _ => some "PANIC"
+
+def rollingSpecSteps (env : Env) (given : Text) (c : RollingCfg) : Option (List String) :=
+  let loc := specExpand alnum env given
+  if c.fw && !hasInfix ['{', '}'] c.pattern then none else
+  let roller : RollerFn := if c.fw then specRoll cwd (specSlot alnum env c.pattern) 0 2 else deleteRollFs cwd
+  match specRollingBuild cwd loc Fs.empty with
+  | .ok (w, fs) => histSteps (specRollingAppend cwd c.time roller loc) (ops c) w fs [renderStep fs w]
+  | _ => none
+
+/-! ### fixed-window roller kinds -/
 
 def curLog : Text := "cur.log".toList
 
-/-- `rolls` times: write the roll number into `cur.log`, then `FixedWindowRoller::roll` -/
-def runRolls (name : Nat → Text) (base count : Nat) : Nat → Nat → Roller.Disk → Option Roller.Disk
-  | 0, _, d => some d
-  | r + 1, k, d =>
-    let d := d.set curLog [k]
-    match (Roller.fixedWindowRoll { nameOf := name, base, count } curLog (fun _ => false) d).1 with
-    | .ok d' => runRolls name base count r (k + 1) d'
-    | .error _ => none
+/-- `rolls` times: write the roll number into `cur.log`, then roll it -/
+def runRolls (roller : RollerFn) : Nat → Nat → Fs → Outcome FsErr Fs
+  | 0, _, fs => .ok fs
+  | r + 1, k, fs =>
+    match openCreate cwd fs curLog with
+    | .ok (fd, fs1) => bindO (roller curLog (fs1.appendTo fd (digit k))) fun fs2 => runRolls roller r (k + 1) fs2
+    | .error e => .err e
 
-def outText : Outcome Unit Text → Option Text
-  | .ok t => some t
-  | _ => none
+def rollerModel (env : Env) (pat : Text) (base count rolls : Nat) : Outcome FsErr Fs :=
+  bindO (rollerBuild pat base count) fun stored => runRolls (rollFs alnum env cwd stored base count) rolls 0 Fs.empty
 
-/-! ### rolling history (kinds `rolling`, `rolling-cfg`) -/
-
-def archName (i : Nat) : Text := "r.".toList ++ Log4rs.Str.decimal i ++ ".log".toList
-
-def renderStep (d : Roller.Disk) (openAt : Option Text) : String :=
-  let entries := d.files.map (fun e =>
-    encStr e.1 ++ "=" ++ (if e.2.isEmpty then "_" else String.ofList (e.2.map Char.ofNat)))
-  encList "," (entries.toArray.qsort (· < ·)).toList ++ ";open=" ++ (match openAt with
-    | some p => encStr p
-    | none => "-")
-
-structure Hist where
-  disk : Roller.Disk
-  writerOpen : Bool
-  len : Nat
-  steps : List String
-
-/-- one `append` of the record whose text is the digit `k % 10`, every file-system use at `loc` -/
-def histAppend (loc : Text) (fw : Bool) (h : Hist) (k : Nat) : Hist :=
-  -- get_writer: reopen in append mode after a roll
-  let (disk, len) := if h.writerOpen then (h.disk, h.len) else
-    match h.disk.get? loc with
-    | some c => (h.disk, c.length)
-    | none => (h.disk.set loc [], 0)
-  let content := (disk.get? loc).getD []
-  let disk := disk.set loc (content ++ [48 + k % 10])
-  let len := len + 1
-  -- SizeTrigger(2): `len > limit`
-  if len > 2 then
-    let disk := if fw then
-        match (Roller.fixedWindowRoll { nameOf := archName, base := 0, count := 2 } loc (fun _ => false) disk).1 with
-        | .ok d => d
-        | .error _ => disk
-      else disk.erase loc
-    { disk, writerOpen := false, len := 0, steps := h.steps ++ [renderStep disk none] }
-  else { disk, writerOpen := true, len, steps := h.steps ++ [renderStep disk (some loc)] }
-
-def simRolling (loc : Text) (fw : Bool) (appends : Nat) : List String :=
-  let d0 := Roller.Disk.empty.set loc []
-  let h0 : Hist := { disk := d0, writerOpen := true, len := 0, steps := [renderStep d0 (some loc)] }
-  ((List.range appends).foldl (histAppend loc fw) h0).steps
-
-def renderHist (steps : List String) : String := "hist:" ++ "|".intercalate steps
+def rollerSpec (env : Env) (pat : Text) (base count rolls : Nat) : Outcome FsErr Fs :=
+  if !hasInfix ['{', '}'] pat || (count > 0 && base + (count - 1) > U32_MAX) then .err (.build "rejected")
+  else runRolls (specRoll cwd (specSlot alnum env pat) base count) rolls 0 Fs.empty
 
 def knownEnv (env : Env) : Bool := env.all (fun e => known e.1 && known e.2)
 
-def rollingCase (kind : String) (os : OsEnv) (env : Env) (p : Text) (fw : Bool) (appends : Nat)
-    (implObs : String) : Answer :=
-  match siteOf kind 0 with
-  | some site =>
-    let m := location alnum env site p
-    let s := specLocation alnum env site p
-    if !(nicePath s && (outText m).all nicePath) then badCase "path not file-system friendly" else
-    let constructs := expand_unfixed alnum env p ≠ .ok s
-    let tags := tagsOf kind env p constructs ++ envTags os p
-      ++ [if fw then "fixed-window" else "delete"] ++ (if appends ≥ 6 then ["two-rolls"] else [])
-    let wantSteps := simRolling s fw appends
-    let want := renderHist wantSteps
-    -- the history agrees until the first roll (after the third append) and differs afterwards
+def verdict (implObs want what sig : String) : String :=
+  if implObs = want then "ok" else "FAIL:" ++ what ++ " expected " ++ want ++ ";sig=" ++ sig
+
+def fileCase (kind : String) (os : OsEnv) (env : Env) (given : Bytes) (implObs : String) : Answer :=
+  let p := toStringLossy given
+  if !known p then badCase "character outside the classified samples" else
+  let loc := specExpand alnum env p
+  if unsafePath loc then badCase "location outside the scratch directory" else
+  let constructs := expand_unfixed alnum env p ≠ .ok loc
+  let tags := tagsOf kind env p constructs ++ envTags os p ++ pathTags p loc
+  { model := renderTree (fileModel env given),
+    spec := verdict implObs (renderTree (fileSpec loc)) "file location" (failSig implObs (foreign os) true (reexpands env p) constructs),
+    tags }
+where
+  pathTags (p loc : Text) : List String :=
+    let r := rpath loc
+    (if p.head? = some '$' then ["leading-reference"] else []) ++
+    (if r.abs then ["absolute"] else []) ++
+    (if r.comps.contains dotdot then ["dotdot"] else []) ++
+    (if r.trailing then ["trailing-slash"] else []) ++
+    (if hasSub ['/', '/'] loc then ["double-slash"] else [])
+
+def rollingCase (kind : String) (os : OsEnv) (env : Env) (p : Text) (c : RollingCfg) (implObs : String) : Answer :=
+  let loc := specExpand alnum env p
+  if unsafePath loc || (c.fw && (List.range 3).any (fun i => unsafePath (specSlot alnum env c.pattern i))) then
+    badCase "location outside the scratch directory" else
+  let constructs := expand_unfixed alnum env p ≠ .ok loc
+  let tags := tagsOf kind env p constructs ++ envTags os p
+    ++ [if c.fw then "fixed-window" else "delete", if c.time then "time-trigger" else "size-trigger"]
+    ++ (if c.appends ≥ 6 || (c.time && c.appends ≥ 3) then ["two-rolls"] else [])
+    ++ (if p.head? = some '$' then ["leading-reference"] else [])
+    ++ (if (rpath loc).abs then ["absolute"] else [])
+    ++ (if hasSub envPrefix c.pattern then ["roller-pattern-reference"] else [])
+  match rollingModel env p c with
+  | none => badCase "an append fails in the model"
+  | some model =>
+    let wantSteps := rollingSpecSteps env p c
+    let want := match wantSteps with
+      | some steps => "hist:" ++ "|".intercalate steps
+      | none => "err"
+    -- the history agrees until the first roll and differs afterwards
+    let firstRoll := if c.time then 2 else 4
     let implSteps := splitOnChar '|' ((implObs.drop 5).toString)
-    let untilRoll := implSteps.take 3 = wantSteps.take 3 && appends ≥ 3 && s ≠ p
-    { model := match m with
-        | .ok t => renderHist (simRolling t fw appends)
-        | _ => "PANIC",
+    let untilRoll := match wantSteps with
+      | some steps => implSteps.take (firstRoll - 1) = steps.take (firstRoll - 1) && steps.length ≥ firstRoll && loc ≠ p
+      | none => false
+    { model,
       spec := if implObs = want then "ok" else
         "FAIL:rolling history expected " ++ want ++ ";sig=" ++
           (if implObs ≠ "PANIC" && untilRoll then "C19/location-not-stable-across-rolls"
            else failSig implObs (foreign os) true (reexpands env p) constructs),
       tags }
-  | none => badCase "kind"
 
-def handle : Handler := fun cas obs =>
-  match cas, obs with
-  | [kind, envS, pathS], [implObs] =>
-    match decEnv envS, decStr pathS with
-    | some (os, env), some p =>
-      if !(known p && knownEnv env) then badCase "character outside the classified samples" else
-      if kind = "rolling" || kind = "rolling-cfg" then rollingCase kind os env p true 8 implObs else
-      let s := specExpand alnum env p
-      let constructs := expand_unfixed alnum env p ≠ .ok s
-      let tags := tagsOf kind env p constructs ++ envTags os p
-      if kind = "hook" then
-        let want := "ok:" ++ encStr s
-        { model := renderOut (expandOs alnum os p),
-          spec := if implObs = want then "ok" else "FAIL:expansion expected " ++ want ++ ";sig=" ++ failSig implObs (foreign os) false false constructs,
-          tags }
-      else match siteOf kind 0 with
-      | some site =>
-        if kind = "roller" || kind = "roller-cfg" then badCase "arity" else
-        let m := location alnum env site p
-        let s := specLocation alnum env site p
-        if !(nicePath s && (outText m).all nicePath) then badCase "path not file-system friendly" else
-        let want := "created:" ++ encStr s
-        { model := match m with
-            | .ok t => "created:" ++ encStr t
-            | _ => "PANIC",
-          spec := if implObs = want then "ok" else "FAIL:file location expected " ++ want ++ ";sig=" ++ failSig implObs (foreign os) true (reexpands env p) constructs,
-          tags }
-      | none => badCase "kind"
-    | _, _ => badCase "decode"
-  | [kind, envS, pathS, rollerS, appendsS], [implObs] =>
-    if kind ≠ "rolling" && kind ≠ "rolling-cfg" then badCase "kind" else
-    match decEnv envS, decStr pathS, decNat appendsS with
-    | some (os, env), some p, some appends =>
-      if !(known p && knownEnv env) then badCase "character outside the classified samples" else
-      if rollerS ≠ "fw" && rollerS ≠ "del" then badCase "roller" else
-      if appends > 10 then badCase "appends" else
-      rollingCase kind os env p (rollerS = "fw") appends implObs
-    | _, _, _ => badCase "decode"
-  | [kind, envS, patS, baseS, countS, rollsS], [implObs] =>
+def rollingFields (kind envS pathS rollerS appendsS patS trigS implObs : String) : Answer :=
+  if kind ≠ "rolling" && kind ≠ "rolling-cfg" then badCase "kind" else
+  match decEnv envS, decStr pathS, decNat appendsS with
+  | some (os, env), some p, some appends =>
+    if !(known p && knownEnv env) then badCase "character outside the classified samples" else
+    if rollerS ≠ "fw" && rollerS ≠ "del" then badCase "roller" else
+    if trigS ≠ "size" && trigS ≠ "time" then badCase "trigger" else
+    if appends > 10 then badCase "appends" else
+    match (if patS = "-" then some "r.{}.log".toList else decStr patS) with
+    | none => badCase "decode"
+    | some pat =>
+      if !known pat then badCase "character outside the classified samples" else
+      rollingCase kind os env p { fw := rollerS = "fw", appends, pattern := pat, time := trigS = "time" } implObs
+  | _, _, _ => badCase "decode"
+
+def handleFields (cas : List String) (implObs : String) : Answer :=
+  match cas with
+  | [kind, envS, pathS] =>
+    match decEnv envS with
+    | none => badCase "decode"
+    | some (os, env) =>
+      if !knownEnv env then badCase "character outside the classified samples" else
+      if kind = "file-os" then
+        match decBytes pathS with
+        | some given => fileCase kind os env given implObs
+        | none => badCase "decode"
+      else
+      match decStr pathS with
+      | none => badCase "decode"
+      | some p =>
+        if !known p then badCase "character outside the classified samples" else
+        if kind = "rolling" || kind = "rolling-cfg" then
+          rollingCase kind os env p { fw := true, appends := 8, pattern := "r.{}.log".toList, time := false } implObs
+        else if kind = "file" || kind = "file-cfg" || kind = "file-json" || kind = "file-toml" then
+          fileCase kind os env (utf8 p) implObs
+        else if kind = "hook" then
+          let s := specExpand alnum env p
+          let constructs := expand_unfixed alnum env p ≠ .ok s
+          let want := "ok:" ++ encStr s
+          { model := renderOut (expandOs alnum os p),
+            spec := verdict implObs want "expansion" (failSig implObs (foreign os) false false constructs),
+            tags := tagsOf kind env p constructs ++ envTags os p }
+        else badCase "kind"
+  | [kind, envS, pathS, rollerS, appendsS] =>
+    rollingFields kind envS pathS rollerS appendsS "-" "size" implObs
+  | [kind, envS, pathS, rollerS, appendsS, patS, trigS] =>
+    rollingFields kind envS pathS rollerS appendsS patS trigS implObs
+  | [kind, envS, patS, baseS, countS, rollsS] =>
     if kind ≠ "roller" && kind ≠ "roller-cfg" then badCase "kind" else
     match decEnv envS, decStr patS, decNat baseS, decNat countS, decNat rollsS with
     | some (os, env), some pat, some base, some count, some rolls =>
       if !(known pat && knownEnv env) then badCase "character outside the classified samples" else
+      if rolls > 20 || count > 8 then badCase "size" else
       let idxs := (List.range (count + 1)).map (· + base)
-      let site := fun i => (siteOf kind i).getD (.rollerBuilder i)
-      let mName := fun i => (outText (location alnum env (site i) pat)).getD []
-      let sName := fun i => specLocation alnum env (site i) pat
-      if !(idxs.all (fun i => nicePath (mName i) && nicePath (sName i))) then badCase "path not file-system friendly" else
-      let constructs := idxs.any (fun i => expand_unfixed alnum env (slotText pat i) ≠ .ok (sName i))
+      if idxs.any (fun i => unsafePath (specSlot alnum env pat i)) then badCase "location outside the scratch directory" else
+      let constructs := idxs.any (fun i => expand_unfixed alnum env (slotText pat i) ≠ .ok (specSlot alnum env pat i))
       let nonIdem := idxs.any (fun i => reexpands env (slotText pat i))
       let tags := tagsOf kind env (slotText pat base) constructs ++ envTags os (slotText pat base)
       let tags := if nonIdem && !tags.contains "non-idempotent" then tags ++ ["non-idempotent"] else tags
-      match runRolls mName base count rolls 0 Roller.Disk.empty, runRolls sName base count rolls 0 Roller.Disk.empty with
-      | some dm, some ds =>
-        let want := renderDisk ds
-        { model := renderDisk dm,
-          spec := if implObs = want then "ok" else "FAIL:archive locations expected " ++ want ++ ";sig=" ++ failSig implObs (foreign os) true nonIdem constructs,
-          tags }
-      | _, _ => badCase "roll"
+      let tags := tags ++ (if pat.head? = some '$' then ["leading-reference"] else [])
+        ++ (if !hasInfix ['{', '}'] pat then ["no-placeholder"] else [])
+      { model := renderTree (rollerModel env pat base count rolls),
+        spec := verdict implObs (renderTree (rollerSpec env pat base count rolls)) "archive locations"
+          (failSig implObs (foreign os) true nonIdem constructs),
+        tags }
     | _, _, _, _, _ => badCase "decode"
-  | _, _ => badCase "arity"
+  | _ => badCase "arity"
+
+def handle : Handler := fun cas obs =>
+  match obs with
+  | [implObs] => handleFields (if cas.getLast? = some "@bg" then cas.dropLast else cas) implObs
+  | _ => badCase "arity"
 
 end Driver.C19
